@@ -166,6 +166,8 @@ M("dm1_receive_writes_into_send_dict", ["C16"], "D28 reverted: a received DM1 is
   ("j1939/diagnostic_messages.py", "        self._lamp_status = {}\n        self._lamp_status['pl']", "        self._lamp_status['pl']"))
 M("name_setter_keeps_reserved_bit", ["C15"], "D29 reverted: the value setter stores the reserved bit",
   ("j1939/name.py", "        self.reserved_bit = 0   # reads as 0, like after construction\n", "        self.reserved_bit = (value >> 48) & 1\n"))
+M("request_dispatch_over_live_list", ["C14"], "D30 reverted: request callbacks dispatched over the live list",
+  ("j1939/controller_application.py", "            for subscriber in list(self._subscribers_request):", "            for subscriber in self._subscribers_request:"))
 M("tp21_grant_ignores_rts_limit", ["C09", "C03"], "responder grant ignores the RTS limit",
   ("j1939/j1939_21.py", "            max_num_packages = min(max_num_packages, num_packages)\n", "            max_num_packages = num_packages\n"))
 M("tp21_hold_ignored", ["C09"], "zero-packet CTS treated as 'continue'",
